@@ -43,6 +43,7 @@ func isFieldLoad(name string) func(ssa.Value) bool {
 }
 
 func runC05(ctx *core.Ctx) {
+	c05Round6(ctx)
 	ctx.Trusted = append(ctx.Trusted, "go/types, go/ssa", "sha256.Sum256, hex.Decode, strconv.ParseInt, io.ReadFull, os.Stat behave as documented", "file-system returns the bytes that were written (the gates are shown to be in place and unavoidable, not that the disk is honest)")
 	lookupGates(ctx, "G")
 	c12PutOrder(ctx, "G7")
